@@ -208,8 +208,27 @@ PROPS["C19"] = {
              "Wait was called while the event was definitely clear; reconnect: additionally >=1 transport error and >=1 "
              "acquire after the drop. Distinct = distinct FNV-64 of the case JSON. Executions use real goroutines and "
              "sockets: scripts replay, schedules do not (TestC19_Replay retries a file up to 400 times; the committed "
-             "probe replay is deterministic). A 30 s per-case watchdog prints VERIF-INCONCLUSIVE and exits 3."),
+             "probe replay is deterministic). A 30 s per-case watchdog prints VERIF-INCONCLUSIVE and exits 3. "
+             "Round 3 additions. (a) One third of the Lock/RLock/Semaphore/Flow/RWLock/PriorityLock cases pass "
+             "EXPRIED_FLAG_ZEOR_AOF_TIME (0x0100, through the expried argument of the client constructors) with an expiry of 6..8 s, so "
+             "every hold is filed in the server's long expiry queue at once and the key's manager lives in the overflow map of the key "
+             "table. (b) TestC19_CollidingKeys: the case key B and a second key A differ only by swapping their first two 32-bit words "
+             "(same slot of the fast key table for every table size); the harness locks A, lets bound-many early holders take B "
+             "(lock, rlock, sem n=1..4, flow, rwlock writer or 1..3 readers), unlocks A, pauses 1.2..1.5 s and then polls (white-box, "
+             "settle flag only) until A's manager is gone, starts 1..6 contenders on B and keeps the early holders for another "
+             "5..40 ms. (c) TestC19_WaitedHold: expiry 3..5 s; bound-many first holders keep the primitive for expiry-0.7 s, "
+             "bound-many waiters ask after 0.15..0.3 s, are granted after ~expiry-1 s of waiting and stay inside until 0.6..0.7 s "
+             "before the expiry promised at the grant, 1..3 contenders ask meanwhile (timeout 20 s). Same interval oracle for all "
+             "three. Lateness rule (only use of wall time): the grant of a hold is not earlier than its acquire call and, if the "
+             "primitive was definitely full at the call, not earlier than the first release stamped after it; a release stamped later "
+             "than that lower bound + expiry - 300 ms makes the whole case inconclusive (class late_hold_inconclusive, no verdict, not "
+             "non-trivial). Non-trivial: colliding keys - base rule and A's manager observed gone before the contenders start; "
+             "waited hold - base rule and a hold granted after a forced wait >= 1 s outlived (its request stamp + expiry + 1 s) while "
+             "another acquire was outstanding at that instant."),
     "assumptions": [
+        "known finding C19:release-failed:overflow-map, while listed as known, is excluded by construction: cases whose key manager "
+        "lives in the overflow map (zero-aof-time flag, colliding keys) then use ONE client connection (the finding is repaired; the "
+        "exclusion is inactive)",
         "one primitive object per goroutine (Lock/RLock/MaxConcurrentFlow/RWLock/PriorityLock objects carry one lock id; "
         "sharing one object between goroutines is not a documented use)",
         "higher PriorityLock number = served first (client/prioritylock_test.go); order among equal priorities is not asserted",
@@ -224,6 +243,12 @@ PROPS["C19"] = {
         rapid_unit("primitives", "^TestC19_(Lock|RLock|Semaphore|Flow|RWLock|PriorityLock|Event)$", pkg="server",
                    quick={"checks": 160, "shards": 4, "timeout_s": 900, "shrinktime": "20s"},
                    thorough={"checks": 4000, "shards": 8, "timeout_s": 3600, "shrinktime": "30s"}),
+        rapid_unit("colliding", "^TestC19_CollidingKeys$", pkg="server",
+                   quick={"checks": 24, "shards": 4, "timeout_s": 900, "shrinktime": "10s"},
+                   thorough={"checks": 480, "shards": 8, "timeout_s": 3600, "shrinktime": "20s"}),
+        rapid_unit("waited", "^TestC19_WaitedHold$", pkg="server",
+                   quick={"checks": 8, "shards": 4, "timeout_s": 900, "shrinktime": "5s"},
+                   thorough={"checks": 96, "shards": 8, "timeout_s": 3600, "shrinktime": "10s"}),
         rapid_unit("reconnect", "^TestC19_LockReconnect$", pkg="server",
                    thorough={"checks": 96, "shards": 8, "timeout_s": 3600, "shrinktime": "30s"}),
         plain_unit("selftest", "^TestC19_OracleSelfTest$", pkg="server"),
@@ -390,7 +415,19 @@ PROPS["C13"] = {
              "Non-trivial: at least one connection of the case had >=1 complete command parsed (reached a handler; measured "
              "as the delta of SLock.statsTotalCommandCount); streams rejected before any command was parsed (first-read "
              "sniffing, '*' test) are counted in class 'rejected before any command was parsed'. Distinct = FNV-64 of the "
-             "(hex, chunks) of all connections."),
+             "(hex, chunks) of all connections. "
+             "Shape 'pool' (7% of wire cases): one connection accumulates N resources of one kind and gives them back, all frames "
+             "well-formed; N 65% from {60..70, 100, 130}, 35% from the capacities of the containers found in the code (5..9, 12, 13, 16, 17, "
+             "24, 25, 32, 33, 48, 49, 56, 57, 96, 97, 119..121, 127..129, 192..194, 248..250: per-connection free-command stack [64], will "
+             "queue 8+16+32+64, per-key holder list 6 doubling to 192 then 256); kinds: holds on N keys, N lock ids on one key, N re-entrant "
+             "holds, N queued requests, N wills, N/2 holders + N/2 waiters; released by the connection itself in order / in reverse / partly / "
+             "by closing / by another connection / in 2..3 waves / followed by 1..4 more LOCK-UNLOCK pairs; waiters cancelled (0x02) or granted "
+             "in a row; 20% text protocol; reads from one frame per read to one read. Shape 'exec-tight' (6% of wire and timers cases, 4% of "
+             "nested value frames elsewhere): EXECUTE frame with a property block of P bytes (P from {0,1,2,3,6,9,255}) followed by a nested "
+             "LOCK/UNLOCK with a value frame whose length field is the bytes present plus d, d in -2..P+3, at every stage (current, unlock, "
+             "timeout, expried) with the follow-up that makes the stage fire; 15% as the last sub-frame of a PIPELINE. Classes count 'one "
+             "connection drives a per-connection pool to or beyond its capacity (n >= 64)' and 'EXECUTE frame with a property block whose "
+             "nested length overstates the bytes present by 1..P+2'."),
     "assumptions": [
         "domain filter (counted): SHUTDOWN, FLUSHALL, (BG)REWRITEAOF never; FLUSHDB, CONFIG, CLIENT, SLAVEOF, REPLSET only as "
         "variants that cannot take effect on a stand-alone leader, and only on unmutated connections; mutated / raw / fuzz "
@@ -468,7 +505,12 @@ PROPS["C11"] = {
              "terminal reply exactly once, the value equals the value before the request (failure reply + stored value), the head of the "
              "queue is not admissible afterwards, no freed Lock object is reachable; followers end with the leader's holds. "
              "Non-trivial: single - a failed ack after a value operation with a request queued behind it; cluster - an ack-required "
-             "request whose SUCCED needed >=1 follower frame. Distinct = FNV-64 of configuration + op list."),
+             "request whose SUCCED needed >=1 follower frame. Distinct = FNV-64 of configuration + op list. "
+             "Competing unlocks also carry the unlock flags: 0x01 unlock-first with a LockId nobody holds (the server falls back to the key's "
+             "oldest holder - the pending hold or, behind a shared older holder, not the pending one), 0x01 with the pending LockId, 0x02 "
+             "cancel-wait aimed at the pending LockId / a queued LockId / nothing, 0x03; if the hold the request resolves to (found by the "
+             "LockId the reply carries) awaits acknowledgement the answer must be LOCK_ACK_WAITING and the key's snapshot must not change. A "
+             "violation recorded before a later wait runs into its watchdog is reported, not turned into an inconclusive run."),
     "assumptions": [
         "the harness owns the leader's clock (hook H1); ack waits time out only when the case ticks",
         "a failed write is injected by closing the *os.File under AofFile (what a full disk / EIO looks like to Flush); the file is re-opened after quiescence",
@@ -522,9 +564,15 @@ PROPS["C09"] = {
              "its last full transfer) on the records of each append file are exactly the leader's; a directory whose append file "
              "indices have a hole is a violation. Non-trivial: (>=1 cut in file transfer and >=1 in live streaming) or (leader ring "
              "overflowed and a follower had to resume / resynchronise) or (the leader was restarted and a follower synchronised with it afterwards). Distinct = FNV-64 of ring sizes, operation list and cut plan. "
-             "Inputs and fault plans replay, schedules do not (TestC09_Replay tries a cluster case up to 25 times)."),
+             "Inputs and fault plans replay, schedules do not (TestC09_Replay tries a cluster case up to 25 times). "
+             "About 1 case in 8: a follower in step, then 300..600 leader records while the harness holds that follower's Aof.aofGlock (its log append "
+             "falls behind its receiver), quiescence check, mostly followed by a restart of the follower from its own directory; about 1 case in 12: "
+             "1..3 value-carrying holds with a 1 s expiry, 2..4 more value records behind them, 3.2 s of wall time, then the follower joins by file "
+             "transfer or is restarted from its own directory (log files read with the expiry filter)."),
     "assumptions": [
-        "nothing expires during a case (expiries >= 60 s, cases last < 3 s) and nothing waits (Timeout 0); require-ack is C11's",
+        "apart from the dedicated short-lived holds (1 s, keys 20..22, always followed by a 3.2 s pause before anything is compared) nothing expires "
+        "during a case (expiries >= 60 s) and nothing waits (Timeout 0); require-ack is C11's",
+        "fburst holds the follower's Aof.aofGlock for the duration of the burst plus <= 0.5 s",
         "after a leader restart the reference is the restarted leader (what its log recovers); followers are stopped with the leader, so no node carries pre-restart memory across it",
         "tunables read from the package-global Config after Init are identical on all nodes of a cluster; nodes are created sequentially",
         "ReplicationClient's 5 s reconnect sleep is shortened through its own WakeupRetryConnect every 3 ms; nothing else is touched",
@@ -588,10 +636,17 @@ PROPS["C10"] = {
              "expiry flags a log record preserves (keep-alive 0x8000, minute 0x0040, log-error 0x0800, no-reset 0x2000; always 0x0100, never unlimited) are replicated, the stream is "
              "stalled and the follower's clock is advanced 5..700 s through LockDB.checkTimeExpried (hook H1, no wall-clock sweeps): "
              "the hold must be present while clock - deadline < 300 s; then the leader releases and the follower must follow. "
-             "...Real: the same with the real sweep goroutines, 3.5 s of wall time, leader expires, follower keeps, follower drops when "
-             "the leader's record arrives. Non-trivial (Forward): >=1 request answered by forwarding and >=1 refused with STATE_ERROR "
+             "...Real (3 cases): the same with the real sweep goroutines, expiry + 2.5 s of wall time, one case with the millisecond flag 0x0400 "
+             "(expiry 900..2900 ms; only wall time drives the millisecond wheel), leader expires, follower keeps, follower drops when "
+             "the leader's record arrives. About 1 case in 4 of TestC10_Forward is a role case: 2..6 calls of ReplicationManager.SwitchToFollower(\"\"), "
+             "SwitchToLeader(), SwitchToFollower(addr) on the second node, as the arbiter performs them; after every deposition SLock.state / "
+             "LockDB.status are not LEADER, a LOCK handed to the node answers STATE_ERROR and its table does not change (TCP requests to a "
+             "leaderless node may be refused or forwarded but must not move its table); a role case is non-trivial with >=1 LOCK granted as "
+             "leader and >=1 refusal after a deposition. Non-trivial (Forward): >=1 request answered by forwarding and >=1 refused with STATE_ERROR "
              "(over TCP or direct); (expiry): hold observed past its deadline. Distinct = FNV-64 of the script / case."),
     "assumptions": [
+        "role cases exclude the harness' poke key from the table comparison (its record may still be in the ended client's pipelines); "
+        "the real-time unit needs ~15 s (3 cases)",
         "text protocol scripts use DbId 0 and no value operations; a text refusal is a RESP error line ('-ERR Leader Server Error')",
         "the early-answer window is 300 ms of wall time: a forwarded request that the leader answers at once (refusal) is an early answer on both paths and compared as usual; only 'early through the follower, late at the leader' is judged",
         "a request in role VOTE/CONFIG may be refused or, on a connection that already has a forwarding client, forwarded - both allowed",
